@@ -66,7 +66,7 @@ func genMsgID(g *genCtx) {
 	// (ii) random tuples and random / patterned ids
 	nr := 1500
 	if g.thorough() {
-		nr = 20000
+		nr = 200000
 	}
 	for i := 0; i < nr; i++ {
 		var f [7]uint64
